@@ -50,7 +50,8 @@ type Op struct {
 	Key   string
 	Level model.Level
 	Len   int   // content length (0 = default)
-	Split []int // Create: sizes of the Write calls
+	Split []int // Create: sizes of the Write calls; SetReader: sizes the source reader returns per call
+	Paced bool  // Create: let the storing side drain after every Write (a slow writer)
 }
 
 const DefaultLen = 8
@@ -71,8 +72,14 @@ func (o Op) String() string {
 	case GC, Reopen, Restart:
 		return o.Kind.String()
 	case Create:
+		if o.Paced {
+			return fmt.Sprintf("%sCreate(%q,%v,paced)", a, o.Key, o.Split)
+		}
 		return fmt.Sprintf("%sCreate(%q,%v)", a, o.Key, o.Split)
 	case Set, SetReader:
+		if o.Kind == SetReader && len(o.Split) > 0 {
+			return fmt.Sprintf("%sSetReader(%q,reads=%v)", a, o.Key, o.Split)
+		}
 		if o.Len != 0 && o.Len != DefaultLen {
 			return fmt.Sprintf("%s%s(%q,len=%d)", a, o.Kind, o.Key, o.length())
 		}
@@ -82,7 +89,7 @@ func (o Op) String() string {
 
 func (o Op) length() int {
 	switch {
-	case o.Kind == Create:
+	case o.Kind == Create || (o.Kind == SetReader && len(o.Split) > 0):
 		n := 0
 		for _, s := range o.Split {
 			n += s
@@ -145,6 +152,33 @@ type Runner struct {
 	FPs   map[uint64]struct{}
 	ctx   context.Context
 	Ended map[int]string // finished slots: how they ended
+}
+
+// chunkReader hands the content out in reads of prescribed sizes (as a pipe or a multi-reader would).
+type chunkReader struct {
+	data  []byte
+	sizes []int
+	i     int
+}
+
+func (c *chunkReader) Read(p []byte) (int, error) {
+	if len(c.data) == 0 {
+		return 0, io.EOF
+	}
+	n := len(c.data)
+	if c.i < len(c.sizes) && c.sizes[c.i] < n {
+		n = c.sizes[c.i]
+	}
+	c.i++
+	if n > len(p) {
+		n = len(p)
+	}
+	if n == 0 {
+		return 0, nil
+	}
+	copy(p, c.data[:n])
+	c.data = c.data[n:]
+	return n, nil
 }
 
 type plainReader struct{ r io.Reader }
@@ -231,7 +265,11 @@ func (r *Runner) apply(op Op) *Mismatch {
 		case Set:
 			err = st.Set(ctx, op.Key, content)
 		case SetReader:
-			err = st.SetReader(ctx, op.Key, plainReader{bytes.NewReader(content)})
+			if len(op.Split) > 0 {
+				err = st.SetReader(ctx, op.Key, &chunkReader{data: content, sizes: op.Split})
+			} else {
+				err = st.SetReader(ctx, op.Key, plainReader{bytes.NewReader(content)})
+			}
 		case Create:
 			var f fs_db.File
 			f, err = st.Create(ctx, op.Key)
@@ -248,6 +286,9 @@ func (r *Runner) apply(op Op) *Mismatch {
 						break
 					}
 					off += s
+					if op.Paced {
+						vrt.Quiesce()
+					}
 				}
 				cerr := f.Close()
 				if err == nil {
@@ -300,7 +341,9 @@ func (r *Runner) apply(op Op) *Mismatch {
 			return m
 		}
 	case GC:
-		dbh.GC()
+		if err := dbh.GCOn(r.In); err != nil {
+			return r.mism(op, "GC failed: "+dbh.ShortErr(err), "seq|GC|exp=nil,obs=error")
+		}
 	case Reopen, Restart:
 		if err := r.In.Close(); err != nil {
 			return r.mism(op, "Close failed: "+dbh.ShortErr(err), "seq|Close|exp=nil,obs=error")
